@@ -48,7 +48,7 @@ static void ev(const std::string& s) {
 static std::string hexs(const std::vector<uint8_t>& v) { std::string s; char b[4]; for (uint8_t x : v) { snprintf(b, 4, "%02x", x); s += b; } return s; }
 
 // ---------------------------------------------------------------- configuration
-struct ReqDef { std::vector<uint8_t> master; int kind; int restarts; };  // kind 0 waited, 1 deleteOnFinish, 2 restarting
+struct ReqDef { std::vector<uint8_t> master; int kind; int restarts; };  // kind 0 waited, 1 deleteOnFinish, 2 restarting after success, 3 restarting also after an error
 struct AnsDef { uint8_t src, dst, pb, sb; std::vector<uint8_t> id; std::vector<uint8_t> answer; };
 struct Cfg {
   bool enhanced = false, readOnly = false, answer = false, generateSyn = false;
@@ -67,6 +67,7 @@ struct Cfg {
   long maxNodes = 600000;
   bool escQQ = false;
   bool enhErr = false;       // enhanced: the adapter may report ERROR_EBUS while it is armed for an arbitration
+  bool enhCtl = false;       // enhanced: a symbol may be followed in the same read chunk by a non-symbol frame (ERROR_EBUS)
   bool enhSplit = false;     // enhanced: read chunks may end inside a two-byte frame (needs chunk2 for symbol+half)
   bool arbNone = true;       // the arbitration byte may vanish from the wire (no echo at all)
   bool chunk2 = false;       // deliveries of two symbols in one transport read chunk
@@ -100,7 +101,7 @@ static void parseArg(const std::string& a) {
   else if (k == "keyseen") C.keySeen = b(); else if (k == "reconnect") C.reconnect = b(); else if (k == "maxnodes") C.maxNodes = atol(v.c_str());
   else if (k == "escqq") C.escQQ = b();
   else if (k == "autopoll") C.autoPoll = b();
-  else if (k == "lateecho") C.lateEcho = b(); else if (k == "chunk2") C.chunk2 = b(); else if (k == "arbnone") C.arbNone = b(); else if (k == "enhsplit") C.enhSplit = b(); else if (k == "enherr") C.enhErr = b();
+  else if (k == "lateecho") C.lateEcho = b(); else if (k == "chunk2") C.chunk2 = b(); else if (k == "arbnone") C.arbNone = b(); else if (k == "enhsplit") C.enhSplit = b(); else if (k == "enherr") C.enhErr = b(); else if (k == "enhctl") C.enhCtl = b();
   else if (k == "enhlong") C.enhLongForm = b(); else if (k == "enhfeat") C.enhFeatures = (uint8_t)atoi(v.c_str());
   else if (k == "events") g_mask = "," + v + ",";
   else if (k == "req") {  // req=<kind>:<hex master without crc>[:restarts]
@@ -279,6 +280,8 @@ struct FakeTransport : public Transport {
       }
       if (d == "er") { ev("[\"err\",\"read\"]"); g_trk.silence(); close(); return RESULT_ERR_DEVICE; }
       if (d == "EB" && C.enhanced) { frame(0xb /*ERROR_EBUS*/, 0, 0); d = ""; }   // adapter reports a bus error (framing)
+      bool ctl = !d.empty() && d[d.size() - 1] == '!';    // enhanced: a non-symbol frame ends the chunk behind the last symbol
+      if (ctl) d.erase(d.size() - 1);
       bool split = !d.empty() && d[d.size() - 1] == '~';  // enhanced: the chunk ends inside the frame of the last symbol
       if (split) d.erase(d.size() - 1);
       for (size_t i = 0; i + 1 < d.size(); i += 2) {
@@ -291,6 +294,7 @@ struct FakeTransport : public Transport {
           if (C.enhanced && sy == SYN && armed != SYN) adapterArbitrate();
         }
       }
+      if (ctl && C.enhanced) frame(0xb /*ERROR_EBUS*/, 0, 0);
     }
     *data = buf.data(); *len = buf.size();
     return RESULT_OK;
@@ -331,7 +335,8 @@ struct VReq : public BusRequest {
   std::vector<uint8_t> slave() const { return std::vector<uint8_t>(slaveBuf, slaveBuf + slaveLen); }
   void setSlave(const uint8_t* d, size_t n) { slaveLen = (int)std::min<size_t>(n, sizeof slaveBuf); memcpy(slaveBuf, d, slaveLen); }
   bool notify(result_t res, const SlaveSymbolString& sl) override {
-    bool restart = kind == 2 && restartsLeft > 0 && res == RESULT_OK;  // like PollRequest/ScanRequest: next part only after success
+    // kind 2 like PollRequest (next part only after success), kind 3 like ScanRequest (next destination also after an error)
+    bool restart = (kind == 2 || kind == 3) && restartsLeft > 0 && (res == RESULT_OK || (kind == 3 && res != RESULT_ERR_NO_SIGNAL));  // no real request asks for a restart without signal
     if (restart) restartsLeft--;
     char b[64]; snprintf(b, sizeof b, "[\"ntf\",%d,%d,", idx, (int)res); ev(std::string(b) + jb(sl) + (restart ? ",1," : ",0,") + std::to_string(status) + "]");
     result = res; setSlave(sl.data(), sl.size());
@@ -618,6 +623,12 @@ static void delivChoices2(const Tracker& t, std::vector<std::string>* o, int lat
   }
   if (C.enhanced && C.enhSplit) for (const std::string& x : first) if (x != "to" && x != "tl" && x != "er" && x != "EB") o->push_back(x + "~");
 }
+// enhanced: every symbol delivery also with a trailing non-symbol frame in the same chunk
+static void delivChoicesCtl(std::vector<std::string>* o) {
+  if (!C.enhanced || !C.enhCtl) return;
+  std::vector<std::string> first(*o);
+  for (const std::string& x : first) if (x != "to" && x != "tl" && x != "er" && x != "EB" && x[x.size() - 1] != '~') o->push_back(x + "!");
+}
 static void echoChoices(const Tracker& t, uint8_t w, std::vector<std::string>* o) {
   o->clear(); o->push_back("s");
   if (t.ph == P_QQ && !t.mrep && isMaster(w)) {  // arbitration position: collisions
@@ -700,7 +711,7 @@ static int cmdGraph(const char* outPath) {
       std::string e0 = in.usedEcho ? in.echo : "", d0 = in.usedDeliv ? in.deliv : "";
       int cb0 = in.usedCb ? in.cb : -1; bool w0 = in.usedW && in.wfail;
       if (in.usedEcho) { std::vector<std::string> c; echoChoices(in.echoT, in.echoW[0], &c); for (auto& x : c) alts.push_back(compose(x, d0, cb0, w0, of)); }
-      if (in.usedDeliv) { std::vector<std::string> c; g_choiceArmed = in.enhArmed; delivChoices2(in.delivT, &c, in.lateEcho); g_choiceArmed = false; for (auto& x : c) alts.push_back(compose(e0, x, cb0, w0, of)); }
+      if (in.usedDeliv) { std::vector<std::string> c; g_choiceArmed = in.enhArmed; delivChoices2(in.delivT, &c, in.lateEcho); delivChoicesCtl(&c); g_choiceArmed = false; for (auto& x : c) alts.push_back(compose(e0, x, cb0, w0, of)); }
       if (in.usedCb) { VerifAccess::restore(g_h, g_d, g_t, cur); for (size_t r = 0; r < g_reqs.size(); r++) if (g_reqs[r]->status == 0 || g_reqs[r]->status == 3) alts.push_back(compose(e0, d0, (int)r, w0, of)); }
       if (in.usedW && !w0) alts.push_back(compose(e0, d0, cb0, true, of));
       if (!cur.valid && C.openFail && !of) alts.push_back(compose(e0, d0, cb0, w0, true));
